@@ -962,7 +962,7 @@ func (p *ValidateTxAndPayClaimInvoiceAction) Execute(services *SwapServices, swa
 			if err != nil {
 				return swap.HandleError(err)
 			}
-			if swap.GetChain() == btc_chain && (now-swap.StartingBlockHeight) > validator.GetCSVHeight()/2 {
+			if swap.GetChain() == btc_chain && (now < swap.StartingBlockHeight || (now-swap.StartingBlockHeight) >= validator.GetCSVHeight()/2) {
 				log.Debugf("[Swap:%s] passed csv limit blockheight now=%d, blockheight starting=%d", swap.GetId(), now, swap.StartingBlockHeight)
 				swap.LastErr = err
 				return swap.HandleError(err)
